@@ -14,12 +14,12 @@ RULE = ('segment pairs of all 9 kind pairs (line/quadratic/cubic x line/quadrati
         'identical, reversed copy, collinear-overlapping, degenerate (zero-length operand); reference = dense 200x200 sampling of both operands + '
         'coordinate-descent refinement (true minimum) and the control-polygon diameter bound (greatest distance); non-trivial = both operands of '
         'positive length')
-NOT_PROVED = ['termination: PROVED over the reals (Proofs/C20term.v: for every pair of segments the recursion never nests deeper than 76 levels -- the selected split index is level-independent and never (0,0), so the product of the interval widths shrinks by 5/6 per level and must stay above 1e-6 -- hence curveDistance with fuel >= 80 returns Ok and more fuel does not change the result; the hypothesis D(0,0) = S(0,0) is necessary: termination_needs_D00); for binary64 only fuel-monotonicity and concrete runs are proved, the float recursion depth is watched by the search',
+NOT_PROVED = ['termination: PROVED over the reals (Proofs/C20term.v: for every pair of segments the recursion never nests deeper than 76 levels -- the selected split index is level-independent and never (0,0), so the product of the interval widths shrinks by 5/6 per level and must stay above 1e-6 -- hence curveDistance with fuel >= 80 returns Ok and more fuel does not change the result; the hypothesis D(0,0) = S(0,0) is necessary: termination_needs_D00); and the SAME for binary64 (Proofs/C20termF.v, Flocq): for all control coordinates that are finite with |c| <= 2^400 the float recursion never nests deeper than 80 levels -- the split computed with four roundings stays inside its interval and shrinks it to at most 0.84 of its width, S and the D table are finite (exponent tracking through the generated formulas for all nine order pairs), D(0,0) and S(0,0) have the same real value -- so curveDistance on floats with fuel >= 81 never raises RecursionError and does not depend on the fuel',
               'accuracy of the float S(u,v) for operands at distance 0 (rounding can leave it slightly below zero; curveDistance clamps it with '
               'max(dist, 0.0) since the fix 73d2744, and clamp_not_below shows math.sqrt then cannot raise): the float result is only '
               'compared with references by the search',
               'finiteness of the float result (no overflow) -- watched by the search']
-ASSUMPTIONS = ['theorems are over the reals; the float control flow of minDist/curveDistance/distanceToPath is tied to the model by the correspondence '
+ASSUMPTIONS = ['Coq.Floats.FloatAxioms / Uint63 specification axioms (stdlib) for the binary64 termination theorem', 'theorems are over the reals; the float control flow of minDist/curveDistance/distanceToPath is tied to the model by the correspondence '
                'on recorded S values (CPython `**` = libm pow is not reproduced bit for bit by the generated S)']
 HAND_FINGERPRINTS = [('utils/curvedistance.py', 'MinimumCurveDistanceFinder.minDist'), ('utils/curvedistance.py', 'curveDistance'),
                      ('utils/curvedistance.py', 'MinimumCurveDistanceFinder.__init__'),
